@@ -48,6 +48,11 @@ POS = {
     "external_volume": ("CREATE TABLE t1 (a int, b int) EXTERNAL_VOLUME = {L};", lambda r: r[0]["table_properties"]["external_volume"]),
     "table_comment_eq": ("CREATE TABLE t1 (a int, b int) COMMENT = {L};", lambda r: r[0]["comment"]),
     "serde_class": ("CREATE TABLE t1 (a int, b int) ROW FORMAT SERDE {L};", lambda r: r[0]["table_properties"]["row_format"]["java_class"]),
+    # defaults given by ALTER TABLE (a later statement restating / adding the column)
+    "alter_modify_default": ("CREATE TABLE t1 (a int, b varchar(50) DEFAULT 'old', c int);\nALTER TABLE t1 MODIFY b varchar(50) DEFAULT {L};", lambda r: r[0]["columns"][1]["default"]),
+    "alter_column_default": ("CREATE TABLE t1 (a int, b varchar(50), c int);\nALTER TABLE t1 ALTER COLUMN b varchar(50) DEFAULT {L};", lambda r: r[0]["columns"][1]["default"]),
+    "alter_add_default": ("CREATE TABLE t1 (a int, c int);\nALTER TABLE t1 ADD b varchar(50) DEFAULT {L};", lambda r: r[0]["columns"][2]["default"]),
+    "alter_default_for": ("CREATE TABLE t1 (a int, b varchar(50), c int);\nALTER TABLE t1 ADD CONSTRAINT df1 DEFAULT {L} FOR b;", lambda r: r[0]["alter"]["defaults"][0]["value"]),
     "fields_terminated": ("CREATE TABLE t1 (a int, b int) FIELDS TERMINATED BY {L};", lambda r: r[0]["table_properties"]["fields_terminated_by"]),
 }
 
@@ -115,18 +120,25 @@ def run(tier, seed):
             V.mismatch(dict(case, problem="literal not verbatim", reported=got), tags=tags, paths=["literal"])
     # numeric defaults come back as integers of the same value
     nums = ["0", "7", "42", "1000", "12345", "999999999", "2147483648", "9223372036854775807", "12345678901234567890", "00012"]
-    nt = [(f"CREATE TABLE t1 (a int, b bigint DEFAULT {x}, c int);\n", {}, {}) for x in nums]
+    NUMPOS = {"create": ("CREATE TABLE t1 (a int, b bigint DEFAULT {x}, c int);\n", 1),
+              "create_between_options": ("CREATE TABLE t1 (a int, b bigint NOT NULL DEFAULT {x} COMMENT 'n', c int);\n", 1),
+              "alter_modify": ("CREATE TABLE t1 (a int, b bigint DEFAULT 5, c int);\nALTER TABLE t1 MODIFY b bigint DEFAULT {x};\n", 1),
+              "alter_modify_no_previous": ("CREATE TABLE t1 (a int, b bigint, c int);\nALTER TABLE t1 MODIFY b bigint DEFAULT {x};\n", 1),
+              "alter_column": ("CREATE TABLE t1 (a int, b bigint DEFAULT 5, c int);\nALTER TABLE t1 ALTER COLUMN b bigint DEFAULT {x};\n", 1),
+              "alter_add": ("CREATE TABLE t1 (a int, c int);\nALTER TABLE t1 ADD b bigint DEFAULT {x};\n", 2)}
+    nt = [(tpl.replace("{x}", x), {}, {}) for x in nums for tpl, _ in NUMPOS.values()]
+    nmeta = [(x, pid, ci) for x in nums for pid, (_, ci) in NUMPOS.items()]
     outs, _ = C.parse_many(nt)
-    for x, o in zip(nums, outs):
+    for (x, pid, ci), tk, o in zip(nmeta, nt, outs):
         try:
-            got = o[1][0]["columns"][1]["default"]
+            got = o[1][0]["columns"][ci]["default"]
         except Exception:  # noqa
             got = o
         if got != int(x) or isinstance(got, bool) or not isinstance(got, int):
-            V.mismatch({"problem": "numeric default is not the integer of the same value", "written": x, "reported": got}, paths=["numeric"])
+            V.mismatch({"problem": "numeric default is not the integer of the same value", "position": pid, "written": x, "reported": got, "ddl": tk[0]}, paths=["numeric"])
     rc = V.finish()
     b = behs[len(behs) // 2]
-    cov = {"states": states, "transitions": trans, "traces_validated_against_impl": len(cases) + len(nums), "class_strings": len(behs), "positions": sorted(POS),
+    cov = {"states": states, "transitions": trans, "traces_validated_against_impl": len(cases) + len(nt), "class_strings": len(behs), "positions": sorted(POS),
            "classes": CLASSES, "samples": [{"classes": b["lit"], "literal": "'" + concretise(b["lit"], random.Random(1)) + "'", "ddl": POS["default"][0]}],
            "exhaustive": len(g.beh) == len(behs), "known_findings_met": V.hits}
     C.write_evidence(PID, tier, seed, cov, time.time() - t0, len(V.viol),
